@@ -1,0 +1,67 @@
+//go:build verif
+
+// Package verifhook holds observation points for the runtime monitors kept outside
+// this repository. With the "verif" build tag every call is forwarded to the
+// handler installed with Set; without a handler a call costs one atomic load.
+package verifhook
+
+import "sync/atomic"
+
+// Handler receives the events of the instrumented build.
+type Handler interface {
+	Tick(site string)
+	Yield(site string)
+	Acquire(kind string, obj any)
+	Release(kind string, obj any)
+	Poison(b []byte)
+}
+
+type holder struct{ h Handler }
+
+var current atomic.Value // holder
+
+// Enabled reports whether the hooks are compiled in.
+const Enabled = true
+
+// Set installs h (nil removes the handler).
+func Set(h Handler) { current.Store(holder{h}) }
+
+func get() Handler {
+	v, _ := current.Load().(holder)
+	return v.h
+}
+
+// Tick counts one logical step at site.
+func Tick(site string) {
+	if h := get(); h != nil {
+		h.Tick(site)
+	}
+}
+
+// Yield marks a point where the scheduler may be perturbed.
+func Yield(site string) {
+	if h := get(); h != nil {
+		h.Yield(site)
+	}
+}
+
+// Acquire reports that obj was taken from the pool named kind.
+func Acquire(kind string, obj any) {
+	if h := get(); h != nil {
+		h.Acquire(kind, obj)
+	}
+}
+
+// Release reports that obj is about to be returned to the pool named kind.
+func Release(kind string, obj any) {
+	if h := get(); h != nil {
+		h.Release(kind, obj)
+	}
+}
+
+// Poison is given memory that is about to be handed back to a pool.
+func Poison(b []byte) {
+	if h := get(); h != nil {
+		h.Poison(b)
+	}
+}
